@@ -65,7 +65,7 @@ PLAN = {
     "C02": dict(
         level="other",
         functions=BATTERY_FNS + [E + "EV.charge", E + "EV.reset"] + SET_PILOT + [NET + "update_pilots", NET + "current_charging_rates",
-                                                                                   SIM + "_store_actual_charging_rates", SIM + "run"],
+                                                                                   SIM + "_store_actual_charging_rates", SIM + "run", SIM + "__init__"],
         lemmas=["C02.whole_run_ledger_sums_follow_from_the_per_period_clauses"],
         bounded=[dict(module="rt.drivers", fn="sim_monitor", label="whole-simulation ledger clauses"),
                  dict(module="rt.drivers", fn="stochastic_sim_monitor", label="ledger clauses with early departure (StochasticNetwork)")],
@@ -81,7 +81,8 @@ PLAN = {
              "aggregate current of the period). current_charging_rates / _store_actual_charging_rates: whole-matrix postconditions (Sum theory). (4) the INDUCTION "
              "over the periods as a lemma whose hypotheses are those step clauses (tied to them by name): delivered energy = initial value + sum over the "
              "connected periods tau < t of recorded rate[tau] x V/1000 x period/60 (Sum unfolding + congruence on the untouched earlier columns), the peak "
-             "dominates every recorded aggregate current and is attained or 0. BOUNDED "
+             "dominates every recorded aggregate current and is attained or 0; base case: Simulator.__init__ (under contract) starts from an all-zero rate matrix, peak 0, "
+             "period 0 and empty histories. BOUNDED "
              "(run-time contracts on the real Simulator over seeded scenarios): the closed sums over a whole run - delivered = sum over connected periods of "
              "recorded rate x V x dt = battery gain, peak = max over periods, total energy = integral of aggregate power, analysis totals - which follow from "
              "the per-period clauses by induction over the periods (the telescoping itself is not restated as an obligation), and the battery side of the "
@@ -97,7 +98,7 @@ PLAN = {
         level="other",
         functions=[SIM + "run", SIM + "_process_event", NET + "plugin", NET + "unplug", NET + "get_ev", S + "BaseEVSE.plugin", S + "BaseEVSE.unplug",
                    EVT + "PluginEvent.__init__", EVT + "UnplugEvent.__init__", EVT + "RecomputeEvent.__init__", EVT + "Event.__lt__",
-                   EQ + "get_current_events", EQ + "add_event", EQ + "get_event", EQ + "empty", NET + "post_charging_update"],
+                   EQ + "get_current_events", EQ + "add_event", EQ + "get_event", EQ + "empty", NET + "post_charging_update", SIM + "__init__"],
         bounded=[dict(module="rt.drivers", fn="sim_monitor", label="lifecycle clauses on whole simulations")],
         text="PROVED (all networks, all finite sets of valid non-overlapping sessions, all max_recompute values; every history, no bound): the main loop "
              "of Simulator.run is verified against an inductive invariant and a per-iteration step contract. Invariant (over the pending multiset = "
@@ -131,7 +132,7 @@ PLAN = {
     ),
     "C04": dict(
         level="other",
-        functions=[SIM + "_update_schedules", "acnportal.acnsim.simulator._increase_width", NET + "update_pilots", SIM + "run"] + SET_PILOT,
+        functions=[SIM + "_update_schedules", "acnportal.acnsim.simulator._increase_width", NET + "update_pilots", SIM + "run", SIM + "__init__"] + SET_PILOT,
         lemmas=["C04.recorded_and_applied_pilots_are_the_overlay_of_all_submitted_schedules"],
         bounded=[dict(module="rt.drivers", fn="sim_monitor", label="schedule overlay clauses on whole simulations")],
         text="PROVED (all schedules: any subset of stations, any common length, empty, longer than the horizon, at any period incl. the last; all matrix "
@@ -153,8 +154,8 @@ PLAN = {
              "schedules that covers period j (0 for an omitted station, 0 if none covers j), every recorded cell equals OV_k and OV_k is 0 beyond the "
              "recorded width - from a fresh zero matrix (base) and preserved by every period (step); a later schedule never rewrites a past period; the "
              "pilot a station holds in period t is OV(station, t) - i.e. recorded = applied = overlay of ALL submitted schedules, for every run. BOUNDED: the "
-             "same closed form re-checked on the real simulator in seeded simulations (the instantiation of the induction at the real initial state - "
-             "Simulator.__init__ builds the zero matrix - is only monitored).",
+             "same closed form re-checked on the real simulator in seeded simulations. The base case is the REAL initial state: Simulator.__init__ (under "
+             "contract) builds an all-zero pilot matrix with one row per registered station and at least one column.",
         note="numpy operations (np.array of equal-length rows, zeros, slice / column assignment, tile, argmax, unravel_index, shape) are assumed "
              "contracts (A-LIB); network.is_feasible / constraint_current enter only through structural facts (shape; no constraints or no columns => "
              "feasible); set(len(x) ...) is characterised by 'at most one element iff all lengths are equal'",
@@ -164,7 +165,9 @@ PLAN = {
     ),
     "C05": dict(
         level="other",
-        functions=[SIM + "run", SIM + "_process_event"] + INFRA + ACCESSORS + OBSERVE,
+        functions=[SIM + "run", SIM + "_process_event", SIM + "__init__", "acnportal.algorithms.base_algorithm.BaseAlgorithm.register_interface",
+                   "acnportal.algorithms.sorted_algorithms.SortedSchedulingAlgo.register_interface",
+                   "acnportal.algorithms.upper_bound_estimator.UpperBoundEstimatorBase.register_interface"] + INFRA + ACCESSORS + OBSERVE,
         bounded=[dict(module="rt.drivers", fn="sim_monitor", label="scheduler invocation / observation / isolation clauses")],
         text="PROVED (all event histories, all max_recompute values, every period; no bound): per-iteration step contract of Simulator.run over a "
              "ghost log of scheduler invocations - the scheduler is invoked in a period if and only if an event was processed in it, or a schedule "
@@ -505,7 +508,8 @@ PLAN = {
     "C17": dict(
         level="other",
         functions=[TOU + "_get_tariff_schedule", TOU + "get_tariff", TOU + "get_tariffs", TOU + "get_demand_charge", TOU + "__init__",
-                   "acnportal.acnsim.interface.Interface.get_prices", "acnportal.acnsim.interface.Interface.get_demand_charge"],
+                   "acnportal.acnsim.interface.Interface.get_prices", "acnportal.acnsim.interface.Interface.get_demand_charge",
+                   AN + "energy_cost", AN + "demand_charge", AN + "aggregate_power"],
         lemmas=["C17.period_offsets_add", "C17.a_wrapping_season_is_the_union_of_its_halves"],
         bounded=[dict(module="rt.fnmon", fn="tariff_monitor", label="all bundled tariffs x every (month, day, weekday) x every breakpoint; interface / analysis alignment")],
         text="PROVED (every well-formed schedule list - any number of schedules, seasons, weekday masks, breakpoint lists - and every instant; no bound): "
